@@ -102,6 +102,10 @@ Fixpoint inserter_fn (s : Z) (tos : list tocfg) (j : nat) (view : record) : M (o
     if negb (to_status t =? s) then inserter_fn s tl j view
     else
       w <- get_w ;;
+      if to_dur t =? -2 then
+        (* a timer function that fails (error 15, returned together with the zero time): the inserter's handler fails *)
+        emit (TUser (UFTimer s j) view (lookup_run w (r_run view)) (w_now w) (UErr 15)) ;;; ret (r_obj view, inr 15, view)
+      else
       let expire := if to_dur t <? 0 then None else Some (w_now w + to_dur t) in
       emit (TUser (UFTimer s j) view (lookup_run w (r_run view)) (w_now w) (UTime expire)) ;;;
       match expire with
